@@ -68,6 +68,11 @@ def sources(tier, seed, ctx):
                 outs = [rng.randint(1, ni + ng) for _ in range(no)]
                 srcs.append({'k': 'codec', 'net': [ni, gs], 'outs': outs, 'variant': 'plain', 'vs': ni * 100 + ng, 'db': (ni + ng + no) % 4 == 0, 'boundary': True})
     note.append('size-boundary circuits (1..9 inputs, 0..9 NOT gates, 0..2n outputs)')
+    # deep circuits: one path longer than the interpreter's recursion limit, stored in and against topological order
+    for depth in ([1200] if tier == 'quick' else [1200, 3000]):
+        for storage in ('built', 'reversed'):
+            srcs.append({'k': 'codecdeep', 'depth': depth, 'storage': storage})
+    note.append('chains of 1200 gates (kind codecdeep)')
     nrand = 300 if tier == 'quick' else 5000
     for j in range(nrand):
         net = gen.random_netlist(rng, ni=rng.randint(0, 5), ng=rng.randint(1, 25), types=FORMAT_TYPES if j % 3 else gen.ALL18, amax=2 if j % 3 else 4)
@@ -92,6 +97,38 @@ def record(src):
     from cirbo.circuits_db.db import CircuitsDatabase
     from cirbo.circuits_db.exceptions import BinaryDictIOError, BitIOError, CircuitsDatabaseError
 
+    if src['k'] == 'codecdeep':
+        from cirbo.core.circuit import Circuit, gate as G
+
+        n = src['depth']
+        gates = [(f'g{k}', 'XOR' if k % 2 else 'NOT', ((f'g{k - 1}', 'y') if k % 2 else (f'g{k - 1}' if k else 'x',))) for k in range(n)]
+        outs = [f'g{n - 1}', f'g{n // 2}', 'y']
+        if src.get('storage') == 'reversed':
+            text = 'INPUT(x)\nINPUT(y)\n' + '\n'.join(f'{l} = {t}({", ".join(o)})' for l, t, o in reversed(gates)) + '\n' + ''.join(f'OUTPUT({o})\n' for o in outs)
+            c = Circuit.from_bench_string(text)
+        else:
+            c = Circuit()
+            c.add_inputs(['x', 'y'])
+            for l, t, o in gates:
+                c.emplace_gate(l, getattr(G, t), o)
+            c.set_outputs(outs)
+        case = {'kind': 'codecdeep', 'c': project(c, users=False, blocks=False), 'order': ['x', 'y'] + [g[0] for g in gates],
+                'enc_exc': '', 'enc_dberr': False, 'dec_exc': '', 'src': src}
+        try:
+            data = encode_circuit(c)
+        except Exception as e:
+            case['enc_exc'] = type(e).__name__
+            case['enc_dberr'] = isinstance(e, CircuitsDatabaseError)
+            return case
+        try:
+            dec = decode_circuit(data)
+            case['dec'] = project(dec, users=False, blocks=False)
+            case['dec_order'] = [g.label for g in dec.top_sort(inverse=True)]
+        except Exception as e:
+            case['dec_exc'] = type(e).__name__
+            case['dec'] = case['c']
+            case['dec_order'] = case['order']
+        return case
     if src['k'] == 'codec':
         c = build(src)
         case = {'kind': 'codec', 'c': project(c), 'enc_exc': '', 'enc_dberr': False, 'bytes': [], 'dec_exc': '', 'src': src}
